@@ -5,7 +5,7 @@
 (* to express (capability tables), and the judges of C09 over an abstract  *)
 (* command and the placement it was generated for.                         *)
 (*                                                                         *)
-(* configuration  c : [m, fl, mode, vnew]                                  *)
+(* configuration  c : [m, fl, mode, vnew, opt]                             *)
 (*    m    method   FORK SSH RSH MPIRUN MPIEXEC SRUN APRUN CCMRUN IBRUN    *)
 (*                  JSRUN PRTE                                             *)
 (*    fl   flavour  plain | mpt | rsh | dplace | ccmrun                    *)
@@ -14,6 +14,8 @@
 (*         cpu-bind) | hf (host:n file) | std (host slots=n file);         *)
 (*         JSRUN: erf | rs ;  all others: std                              *)
 (*    vnew srun new enough for a node file (vmajor above 18)               *)
+(*    opt  options section of the launch method config: absent | empty |   *)
+(*         pinned (no influence on what the method is able to express)     *)
 (*                                                                         *)
 (* placement      P : sequence of ranks [node, cores, gpus]                *)
 (* abstract cmd   C : [np, a, hosts, nn, pins, via, extra]                 *)
